@@ -367,22 +367,30 @@ Proof.
   - intros H it Hin. destruct it; try reflexivity. apply has_refs_iff. apply H. exact Hin.
 Qed.
 
+Lemma range_expr_ok_iff s : range_expr_ok classify s = true <-> RangeExprOk classify s.
+Proof.
+  unfold range_expr_ok, RangeExprOk. destruct (from_str false false classify s) as [e|x].
+  - rewrite Z.ltb_lt. split.
+    + intros H. exists e. split; [reflexivity|exact H].
+    + intros (e' & E & H). injection E as E. subst e'. exact H.
+  - split; [discriminate|]. intros (e & E & _). discriminate E.
+Qed.
+
 Theorem int_range_rule_iff : forall fs,
   (match fget "range" fs with
    | MList items => forallb (fun it => match it with MFmt s => has_refs classify s | _ => true end) items
-   | MFmt s => if has_refs classify s then true
-               else match RangeExpr.from_str false false classify s with Ok _ => true | Raise _ => false end
+   | MFmt s => if has_refs classify s then true else range_expr_ok classify s
    | _ => true
    end) = true <-> IntRangeRule classify fs.
 Proof.
   intros fs. unfold IntRangeRule. destruct (fget "range" fs) as [ | | | | | |s|items| | ];
     try (split; [intros _; exact I|reflexivity]).
-  - pose proof (has_refs_iff classify s) as HR. destruct (has_refs classify s).
+  - pose proof (has_refs_iff classify s) as HR. pose proof (range_expr_ok_iff s) as RO.
+    destruct (has_refs classify s).
     + split; [intros _; left; apply HR; reflexivity|reflexivity].
-    + destruct (from_str false false classify s) as [e|x]; split; intros H; try reflexivity.
-      * right. exists e. reflexivity.
-      * discriminate.
-      * destruct H as [H|(e & E)]; [apply HR in H; discriminate H|discriminate E].
+    + split.
+      * intros H. right. apply RO. exact H.
+      * intros [H|H]; [apply HR in H; discriminate H|apply RO; exact H].
   - apply fmt_items_iff.
 Qed.
 
